@@ -111,6 +111,7 @@ type PkgContracts struct {
 	Axioms  []Lemma
 	Lemmas  []Lemma
 	Ghosts  []GhostVar
+	ConstGlobals []string
 	Immut   []Immutable
 	Props   []PropDecl
 	Order   []string
@@ -120,7 +121,7 @@ var clauseKW = map[string]bool{"mode": true, "requires": true, "ensures": true, 
 	"loop": true, "ghost-update": true, "assert": true, "assert-all-calls": true, "instantiate": true, "inline": true, "pure-call": true,
 	"params": true, "assume": true, "wraps": true}
 var declKW = map[string]bool{"func": true, "iface": true, "trusted": true, "pure": true, "axiom": true, "lemma": true,
-	"ghost": true, "immutable": true, "property": true}
+	"ghost": true, "immutable": true, "property": true, "constglobal": true}
 
 type rawItem struct {
 	text string
@@ -234,6 +235,14 @@ func ParseContractFile(path, pkgPath string) (*PkgContracts, error) {
 		case "ghost":
 			n, t := firstWord(rest)
 			pc.Ghosts = append(pc.Ghosts, GhostVar{n, t})
+			cur = nil
+		case "constglobal":
+			// package-level variables initialised once and never reassigned (e.g. error values): reads are state-independent
+			for _, n := range strings.Split(rest, ",") {
+				if n = strings.TrimSpace(n); n != "" {
+					pc.ConstGlobals = append(pc.ConstGlobals, n)
+				}
+			}
 			cur = nil
 		case "immutable":
 			i := strings.Index(rest, " after ")
